@@ -29,15 +29,44 @@ def func(tree, name, rel):
     raise AnalysisError('%s: function %s() vanished (anchor of a registry contract)' % (rel, name))
 
 
-def has_expr(fn, text):
-    return any(isinstance(n, ast.expr) and src(n) == text for n in ast.walk(fn))
+def _alpha(node, keep):
+    """Source text of an expression with local variable names replaced by their order of first occurrence."""
+    import copy
+    n = copy.deepcopy(node)
+    seen = {}
+    for x in ast.walk(n):
+        if isinstance(x, ast.Name) and x.id not in keep:
+            x.id = seen.setdefault(x.id, '_%d' % len(seen))
+    return src(n)
+
+
+def has_expr(fn, text, tree=None):
+    """fn contains the expression `text`, up to a consistent renaming of local variables."""
+    import builtins
+    if any(isinstance(n, ast.expr) and src(n) == text for n in ast.walk(fn)):
+        return True
+    keep = set(dir(builtins))
+    if tree is not None:
+        for st in tree.body:
+            if isinstance(st, (ast.FunctionDef, ast.ClassDef)):
+                keep.add(st.name)
+            elif isinstance(st, ast.Assign):
+                keep.update(t.id for t in st.targets if isinstance(t, ast.Name))
+            elif isinstance(st, (ast.Import, ast.ImportFrom)):
+                keep.update((a.asname or a.name).split('.')[0] for a in st.names)
+    # imports inside the function
+    for st in ast.walk(fn):
+        if isinstance(st, (ast.Import, ast.ImportFrom)):
+            keep.update((a.asname or a.name).split('.')[0] for a in st.names)
+    want = _alpha(ast.parse(text, mode='eval').body, keep)
+    return any(isinstance(n, ast.expr) and _alpha(n, keep) == want for n in ast.walk(fn))
 
 
 def anchor(rep, rel, fname, exprs, what):
     """The consumer must still contain one of the anchor expressions; otherwise the contract is stale."""
     tree = load_py(rel)
     fn = func(tree, fname, rel)
-    if not any(has_expr(fn, e) for e in exprs):
+    if not any(has_expr(fn, e, tree) for e in exprs):
         raise AnalysisError('%s: %s() no longer contains `%s` - the registry contract "%s" must be re-derived'
                             % (rel, fname, exprs[0], what))
     rep.ok('REG.anchor', '%s:%d %s' % (rel, fn.lineno, fname), '%s  (%s)' % (exprs[0], what))
@@ -139,7 +168,7 @@ def contracts(rep, regs, model):
                       'the registry is queried with the first %d characters only: %d nested blocks of oui.dat (e.g. line %s) are never consulted, '
                       'addresses in them get no or the wrong manufacturer' % (k, len(deep), deep[0].line if deep else ''),
                       what='query %s reaches every nesting level' % src(a))
-    if not has_expr(fn, "info[-2][1]['o']"):
+    if not has_expr(fn, "info[-2][1]['o']", tree):
         if any(f.rule == 'REG.consumer-reach' for f in rep.findings):
             return
         raise AnalysisError("stdnum/mac.py: _lookup() no longer reads info[-2][1]['o']")
@@ -224,21 +253,12 @@ def contracts(rep, regs, model):
     # gs1_ai: format / type keys (their grammar and codec coverage is C16)
     anchor(rep, 'stdnum/gs1_128.py', 'info', ["info['format']", "_gs1_aidb.info(number)"], 'gs1_ai: format= and type= required')
     per_entry(rep, R['gs1_ai'], 'REG.consumer-key', lambda e: 'format' in e.props and 'type' in e.props, 'application identifier without format=/type=')
-    gtree = load_py('stdnum/gs1_128.py')
-    mx = func(gtree, '_max_length', 'stdnum/gs1_128.py')
-    pats = [ast.literal_eval(n.args[0]) for n in ast.walk(mx) if isinstance(n, ast.Call) and src(n.func) in ('re.match', 're.search', 're.fullmatch')
-            and n.args and isinstance(n.args[0], ast.Constant)]
-    if not pats:
-        raise AnalysisError('stdnum/gs1_128.py: component pattern of _max_length() vanished')
-    comp = re.compile(pats[0])
-    splits = [src(n) for n in ast.walk(mx) if isinstance(n, ast.Call) and isinstance(n.func, ast.Attribute) and n.func.attr == 'split']
-    sepr = '+' if any("split('+')" in s for s in splits) else None
-    if sepr is None:
-        raise AnalysisError('stdnum/gs1_128.py: _max_length() no longer splits the format at "+"')
+    from . import c16 as _c16
+    mxl = _c16.max_length_evaluator()
 
     def fmt_ok(e):
-        f = e.props.get('format', '')
-        return all(comp.match(p) for p in f.split(sepr))
+        v_, _err = mxl(e.props.get('format', ''), e.props.get('type', 'str'))
+        return isinstance(v_, int) and v_ > 0
     per_entry(rep, R['gs1_ai'], 'REG.consumer-gs1-format', fmt_ok,
               lambda e: 'format=%r has a component that gs1_128._max_length() does not understand: info()/encode() raise AttributeError for this identifier' % e.props.get('format'))
     per_entry(rep, R['gs1_ai'], 'REG.consumer-shape', lambda e: e.low.isdigit() and e.high.isdigit() and e.low.isascii() and 2 <= e.length <= 4 and e.depth == 0,
